@@ -353,6 +353,11 @@ static void run_request(const std::string& ep, long a, long b, long c, long d, l
 		sink = Factorial(uidx(a));
 	else if(ep == "BinomCoef")
 		sink = Binomial_Coefficient((int)a - 1, (int)b - 1);
+	else if(ep == "BinomBig")
+	{
+		int n = (int)b, k = c == 0 ? 0 : (c == 1 ? 1 : (c == 2 ? n / 2 : n));
+		sink  = a == 0 ? Binomial_Coefficient(n, k) : (a == 1 ? PMF_Binomial((unsigned)n, 0.4, (unsigned)k) : CDF_Binomial((unsigned)n, 0.4, (unsigned)k));
+	}
 	else if(ep == "GammaLn" || ep == "Gamma")
 	{
 		static const double X[4] = {-1.0, 0.0, 1e-300, 1.0};
